@@ -54,7 +54,12 @@ def make_source(rec):
             if i < flat.size:
                 flat[i] = np.nan
     chunks = tuple(tuple(c) for c in rec["chunks"])
-    x = da.from_array(a, chunks=chunks)
+    if rec.get("recsource"):
+        from mc import userfns
+
+        x = da.from_array(userfns.RecSource(a), chunks=chunks, **rec.get("from_array_kwargs", {}))
+    else:
+        x = da.from_array(a, chunks=chunks)
     return a, x
 
 
@@ -88,7 +93,10 @@ def source_src(rec):
     if rec.get("nan"):
         lines.append("a = a.astype('f8'); _f = a.reshape(-1)")
         lines.append(f"for _i in {list(rec['nan'])!r}:\n    if _i < _f.size: _f[_i] = np.nan")
-    lines.append(f"x0 = da.from_array(a, chunks={tuple(tuple(c) for c in rec['chunks'])!r})")
+    if rec.get("recsource"):
+        lines.append(f"x0 = da.from_array(uf.RecSource(a), chunks={tuple(tuple(c) for c in rec['chunks'])!r}, **{rec.get('from_array_kwargs', {})!r})")
+    else:
+        lines.append(f"x0 = da.from_array(a, chunks={tuple(tuple(c) for c in rec['chunks'])!r})")
     lines.append("n0 = a")
     for k, ch in enumerate(rec.get("leaves", []), start=1):
         lines.append(f"n{k} = a + {100 * k}")
